@@ -62,6 +62,20 @@ def parseFlt (sem : Sem) (s : String) : Option Flt :=
       if x.isCanonical then pure x else none
   | _ => none
 
+/-- like `parseFlt` but without the canonicity requirement (used to judge an implementation's answer);
+    accepts the sign-less NaN form `X:e:m` -/
+def parseFltAny (sem : Sem) (s : String) : Option Flt :=
+  match s.splitOn ":" with
+  | [cs, e, m] => do
+      let e ← e.toInt?
+      let m ← parseHex m
+      let sign := (match cs.toList with | [_, '1'] => true | _ => false)
+      let cat ← (match cs.toList with
+        | 'N' :: _ => some Cat.normal | 'Z' :: _ => some Cat.zero
+        | 'I' :: _ => some Cat.inf | 'X' :: _ => some Cat.nan | _ => none)
+      pure ⟨sem, sign, e, m, cat⟩
+  | _ => none
+
 def showCatSign (c : Cat) (sg : Bool) : String :=
   (match c with | .normal => "N" | .zero => "Z" | .inf => "I" | .nan => "X") ++
   (match c with | .nan => "" | _ => if sg then "1" else "0")
